@@ -158,7 +158,8 @@ pub fn exercise_range(ctx: &mut Ctx, r: &Range, src: &str, pool: &Pool) {
         // against itself. The result of a binary operation has up to |A|·|B| alternatives, so
         // for ranges with many alternatives (long-input families) the partner is a fixed small
         // range: the harness must not exhaust memory on output that is quadratic by definition.
-        let alts = s.matches("||").count() + 1;
+        // counted from the stored state (not from Display, which a defect may have shortened)
+        let alts = bounds(r).map(|b| b.0.len()).unwrap_or(usize::MAX).max(s.matches("||").count() + 1);
         if alts <= 40 {
             let _ = r.intersect(r);
             let _ = r.difference(r);
